@@ -92,6 +92,83 @@ theorem compute_len (pf : Field) (rf : RuleField) (hf : FieldFitsC pf rf) (hc : 
   simp only [hc, if_true] at hf
   exact hf.2.1.symm
 
+/-- the shape of the decompressor's state on the IPv6 / UDP stack: the rebuilt field list is a `stack6` with zero
+    placeholders exactly at the positions (3, 10, 11) the rule marks as compute, and those are the compute entries -/
+theorem ipv6_udp_shape (p : Packet) (r : Rule) (pf12 restF : List Field) (rf12 restR : List RuleField)
+    (hp : p.fields = pf12 ++ restF) (hr : r.fields = rf12 ++ restR) (h12p : pf12.length = 12) (h12r : rf12.length = 12)
+    (hids : pf12.map (·.id) = ids6)
+    (hn : r.nature = .compression) (hdir : ∀ rf ∈ r.fields, Spec.dirApplies p.dir rf.dir = true)
+    (happ : Spec.applicable p r = true) (hfit : AllFitsC p.fields r.fields)
+    (hncR : ∀ rf ∈ restR, rf.cda ≠ .compute)
+    (l3 : (fv pf12 3).bits.length = 16) (l10 : (fv pf12 10).bits.length = 16) (l11 : (fv pf12 11).bits.length = 16) :
+    ∃ c3 c10 c11 : Bool,
+      assemble r.fields (zeroed p.fields r.fields) ++ [(Gen.payloadId, ⟨p.payload.bits, .right⟩)] =
+        stack6 (fv pf12 0) (fv pf12 1) (fv pf12 2) (if c3 then ph 16 else fv pf12 3) (fv pf12 4) (fv pf12 5) (fv pf12 6) (fv pf12 7)
+          (fv pf12 8) (fv pf12 9) (if c10 then ph 16 else fv pf12 10) (if c11 then ph 16 else fv pf12 11) (restOf restF restR p.payload) ∧
+      computeEntries r.fields 0 =
+        (if c3 then [(⟨3, Gen.IPv6F.PAYLOAD_LENGTH⟩ : ComputeEntry)] else []) ++
+          ((if c10 then [⟨10, Gen.UDPF.LENGTH⟩] else []) ++ (if c11 then [⟨11, Gen.UDPF.CHECKSUM⟩] else [])) ∧
+      restF.length = restR.length ∧ AllFitsC restF restR ∧ Spec.allMatch restF restR = true := by
+  obtain ⟨x0, x1, x2, x3, x4, x5, x6, x7, x8, x9, x10, x11, rfl⟩ := length12 pf12 h12p
+  obtain ⟨g0, g1, g2, g3, g4, g5, g6, g7, g8, g9, g10, g11, rfl⟩ := length12 rf12 h12r
+  simp only [ids6, Gen.IPv6F.all, Gen.UDPF.all, List.map_cons, List.map_nil, List.cons_append, List.nil_append, List.cons.injEq, and_true] at hids
+  obtain ⟨i0, i1, i2, i3, i4, i5, i6, i7, i8, i9, i10, i11⟩ := hids
+  have happ' := happ
+  unfold Spec.applicable at happ'
+  rw [hn] at happ'
+  have hfilter : r.fields.filter (fun f => Spec.dirApplies p.dir f.dir) = r.fields := by
+    rw [List.filter_eq_self]; exact hdir
+  simp only [hfilter, Bool.and_eq_true, beq_iff_eq] at happ'
+  obtain ⟨hl, hm⟩ := happ'
+  rw [hp, hr] at hl hm hfit
+  have hlrest : restF.length = restR.length := by simpa using hl
+  simp only [List.cons_append, List.nil_append, Spec.allMatch, Bool.and_eq_true] at hm
+  obtain ⟨m0, m1, m2, m3, m4, m5, m6, m7, m8, m9, m10, m11, mrest⟩ := hm
+  have idof : ∀ (pf : Field) (rf : RuleField), Spec.fieldMatches pf rf = true → pf.id = rf.id := by
+    intro pf rf h; unfold Spec.fieldMatches at h; simp only [Bool.and_eq_true, beq_iff_eq] at h; exact h.1
+  have j0 := idof _ _ m0; have j1 := idof _ _ m1; have j2 := idof _ _ m2; have j3 := idof _ _ m3
+  have j4 := idof _ _ m4; have j5 := idof _ _ m5; have j6 := idof _ _ m6; have j7 := idof _ _ m7
+  have j8 := idof _ _ m8; have j9 := idof _ _ m9; have j10 := idof _ _ m10; have j11 := idof _ _ m11
+  simp only [List.cons_append, List.nil_append] at hfit
+  obtain ⟨f0, hfit⟩ := fitsC_cons _ _ _ _ hfit
+  obtain ⟨f1, hfit⟩ := fitsC_cons _ _ _ _ hfit
+  obtain ⟨f2, hfit⟩ := fitsC_cons _ _ _ _ hfit
+  obtain ⟨f3, hfit⟩ := fitsC_cons _ _ _ _ hfit
+  obtain ⟨f4, hfit⟩ := fitsC_cons _ _ _ _ hfit
+  obtain ⟨f5, hfit⟩ := fitsC_cons _ _ _ _ hfit
+  obtain ⟨f6, hfit⟩ := fitsC_cons _ _ _ _ hfit
+  obtain ⟨f7, hfit⟩ := fitsC_cons _ _ _ _ hfit
+  obtain ⟨f8, hfit⟩ := fitsC_cons _ _ _ _ hfit
+  obtain ⟨f9, hfit⟩ := fitsC_cons _ _ _ _ hfit
+  obtain ⟨f10, hfit⟩ := fitsC_cons _ _ _ _ hfit
+  obtain ⟨f11, hfit⟩ := fitsC_cons _ _ _ _ hfit
+  have n0 : g0.cda ≠ .compute := not_compute_of_id x0 g0 f0 (by rw [← j0, i0]; decide)
+  have n1 : g1.cda ≠ .compute := not_compute_of_id x1 g1 f1 (by rw [← j1, i1]; decide)
+  have n2 : g2.cda ≠ .compute := not_compute_of_id x2 g2 f2 (by rw [← j2, i2]; decide)
+  have n4 : g4.cda ≠ .compute := not_compute_of_id x4 g4 f4 (by rw [← j4, i4]; decide)
+  have n5 : g5.cda ≠ .compute := not_compute_of_id x5 g5 f5 (by rw [← j5, i5]; decide)
+  have n6 : g6.cda ≠ .compute := not_compute_of_id x6 g6 f6 (by rw [← j6, i6]; decide)
+  have n7 : g7.cda ≠ .compute := not_compute_of_id x7 g7 f7 (by rw [← j7, i7]; decide)
+  have n8 : g8.cda ≠ .compute := not_compute_of_id x8 g8 f8 (by rw [← j8, i8]; decide)
+  have n9 : g9.cda ≠ .compute := not_compute_of_id x9 g9 f9 (by rw [← j9, i9]; decide)
+  simp only [fv, List.getElem?_cons_succ, List.getElem?_cons_zero, Option.map_some, Option.getD_some] at l3 l10 l11 ⊢
+  refine ⟨decide (g3.cda = .compute), decide (g10.cda = .compute), decide (g11.cda = .compute), ?_, ?_, hlrest, hfit, mrest⟩
+  · rw [hp, hr]
+    have e3 : g3.cda = .compute → g3.length = 16 := fun hc => by rw [compute_len x3 g3 f3 hc]; exact l3
+    have e10 : g10.cda = .compute → g10.length = 16 := fun hc => by rw [compute_len x10 g10 f10 hc]; exact l10
+    have e11 : g11.cda = .compute → g11.length = 16 := fun hc => by rw [compute_len x11 g11 f11 hc]; exact l11
+    simp only [List.cons_append, List.nil_append, zeroed, assemble, sideOf, n0, n1, n2, n4, n5, n6, n7, n8, n9, if_false, stack6, restOf,
+      ← j0, ← j1, ← j2, ← j3, ← j4, ← j5, ← j6, ← j7, ← j8, ← j9, ← j10, ← j11, i0, i1, i2, i3, i4, i5, i6, i7, i8, i9, i10, i11]
+    by_cases c3 : g3.cda = .compute <;> by_cases c10 : g10.cda = .compute <;> by_cases c11 : g11.cda = .compute <;>
+      simp [c3, c10, c11, ph, e3, e10, e11] <;> exact ⟨rfl, rfl, rfl, rfl, rfl, rfl, rfl, rfl, rfl, rfl, rfl, rfl⟩
+  · rw [hr, computeEntries_append, computeEntries_nil restR _ hncR, List.append_nil]
+    simp only [computeEntries, n0, n1, n2, n4, n5, n6, n7, n8, n9, if_false, ← j3, ← j10, ← j11, i3, i10, i11]
+    have q1 : Gen.IPv6F.PAYLOAD_LENGTH = "IPv6:Payload Length" := rfl
+    have q2 : Gen.UDPF.LENGTH = "UDP:Length" := rfl
+    have q3 : Gen.UDPF.CHECKSUM = "UDP:Checksum" := rfl
+    by_cases c3 : g3.cda = .compute <;> by_cases c10 : g10.cda = .compute <;> by_cases c11 : g11.cda = .compute <;>
+      simp [c3, c10, c11, q1, q2, q3]
+
 /-- C01 on the IPv6 / UDP stack: for a packet whose first twelve fields are the IPv6 and UDP header fields and a rule
     that may mark IPv6 payload length, UDP length and UDP checksum as *compute* (any subset), if the packet's length
     fields and checksum are valid (`Valid6`), decompress ∘ compress gives the packet back bit for bit -/
